@@ -1,3 +1,4 @@
+import Fpdec.Kernels.Consts
 import Fpdec.Kernels.AddSub
 import Fpdec.Kernels.Pow
 import Fpdec.Lemmas.Dom
@@ -223,5 +224,16 @@ theorem kernel_int_checked_add_decimal (prof : Profile) (i : Int) (d : Dec) :
     Gen.K.int_checked_add_decimal prof i d = .ok (checkedAddSubInt false true d i) := Kernels.int_checked_add_decimal_eq prof i d
 theorem kernel_int_checked_sub_decimal (prof : Profile) (i : Int) (d : Dec) :
     Gen.K.int_checked_sub_decimal prof i d = .ok (checkedAddSubInt true true d i) := Kernels.int_checked_sub_decimal_eq prof i d
+
+/-- the associated constants of `Decimal` as extracted from src/lib.rs on this run are the model's (`ZERO`/`ONE` are what the
+    translated kernels return for `Self::ZERO` / `Self::ONE`; `MIN ..= MAX` with at most `DELTA`'s digits is the domain `Dom`) -/
+theorem decimal_consts :
+    Gen.DECIMAL_CONSTS =
+      [("ZERO", Dec.ZERO.coeff, Dec.ZERO.nfrac), ("ONE", Dec.ONE.coeff, Dec.ONE.nfrac),
+       ("NEG_ONE", Dec.NEG_ONE.coeff, Dec.NEG_ONE.nfrac), ("TWO", Dec.TWO.coeff, Dec.TWO.nfrac),
+       ("TEN", Dec.TEN.coeff, Dec.TEN.nfrac), ("MAX", Dec.MAX.coeff, Dec.MAX.nfrac), ("MIN", Dec.MIN.coeff, Dec.MIN.nfrac),
+       ("DELTA", Dec.DELTA.coeff, Dec.DELTA.nfrac)] := Kernels.decimal_consts_tie
+theorem dom_is_min_max (d : Dec) :
+    (Dec.MIN.coeff ≤ d.coeff ∧ d.coeff ≤ Dec.MAX.coeff ∧ d.nfrac ≤ Dec.DELTA.nfrac) ↔ Dom d := Kernels.dom_is_min_max d
 
 end Fpdec.Props.C01
